@@ -140,7 +140,14 @@ inline void ApplyCommon(EncT &e, const EncOpts &o) {
 inline void ConfigureExpert(draco::ExpertEncoder *e, const Geo &g, const EncOpts &o, int *pred_rejected = nullptr) {
   ApplyCommon(*e, o);
   if (o.builtin >= 0) e->SetUseBuiltInAttributeCompression(o.builtin != 0);
-  for (size_t a = 0; a < g.atts.size(); ++a) {
+  // Per-attribute options are keyed by attribute id, so the order of the calls must not matter: it is varied
+  // (ascending, descending, rotated) as a deterministic function of the options themselves.
+  const size_t n = g.atts.size();
+  int64_t h = static_cast<int64_t>(n) + o.enc_speed * 7 + o.dec_speed * 3;
+  for (size_t a = 0; a < n; ++a) h += (o.qbits[a] + 101) * static_cast<int64_t>(a + 1) + (o.pred[a] + 101);
+  const int mode = static_cast<int>(((h % 3) + 3) % 3);
+  for (size_t i = 0; i < n; ++i) {
+    const size_t a = mode == 0 ? i : mode == 1 ? n - 1 - i : (i + 1) % n;
     if (a < o.explicit_q.size() && o.explicit_q[a].bits > 0) e->SetAttributeExplicitQuantization(static_cast<int>(a), o.explicit_q[a].bits, static_cast<int>(o.explicit_q[a].origin.size()), o.explicit_q[a].origin.data(), o.explicit_q[a].range);
     else if (o.qbits[a] > 0) e->SetAttributeQuantization(static_cast<int>(a), o.qbits[a]);
     if (o.pred[a] != -100) { if (!e->SetAttributePredictionScheme(static_cast<int>(a), o.pred[a]).ok() && pred_rejected) ++*pred_rejected; }
